@@ -146,6 +146,12 @@ def shape(rng, n):
     return rng.choice(SHAPES[n])
 
 
+# "running context" = late=2 of compound_run.c (a one-task taskpool enqueued before parsec_context_start keeps the workers
+# inside their scheduling loop; it degenerates to start-then-add with one core).  The plain start-then-add (late=1) is
+# not used: parsec_context_start() takes its reference on the context AFTER it released the workers, which may then
+# find no active taskpool and leave the loop; tasks later pushed on their queues (the map operator startup does that)
+# are stranded with the schedulers whose local queues the master cannot reach (lhq).  That hang has nothing to do
+# with the composition.
 def scenario_run(rng, sc, k):
     members = []
     for i, n in enumerate(sc["nt"]):
@@ -154,7 +160,7 @@ def scenario_run(rng, sc, k):
         else:
             members.append("E" if (i + 1) in sc["sync"] else "Z")
     delay = sum(1 << (m - 1) for m in sc["win"])
-    late = 0 if sc["usage"] == "before" else 1 + (k % 2)
+    late = 0 if sc["usage"] == "before" else 2
     return {"members": members, "late": late, "delay": delay, "dmode": 1 + (k // 2) % 2, "nz": 0, "src": "model"}
 
 
@@ -167,7 +173,7 @@ def enumerated_runs(rng, quick):
             for usage in (0, 1):
                 members = [shape(rng, rng.choice((1, 1, 2, 2, 3, 4))) if c == "T" else "E" for c in lay]
                 k += 1
-                runs.append({"members": members, "late": 0 if usage == 0 else 1 + k % 2, "delay": 0, "dmode": 1, "nz": 0,
+                runs.append({"members": members, "late": 0 if usage == 0 else 2, "delay": 0, "dmode": 1, "nz": 0,
                              "src": "enum"})
     return runs
 
@@ -183,7 +189,7 @@ def noise_runs(rng, quick):
             members.append("E" if c < 0.08 else "Z" if c < 0.2 else shape(rng, rng.choice((1, 1, 2, 2, 3, 4))))
         allm = (1 << n) - 1
         delay = allm if k % 3 == 0 else (rng.randint(1, allm) if k % 3 == 1 else 1 << rng.randrange(n))
-        runs.append({"members": members, "late": (2, 0, 1, 2)[k % 4], "delay": delay, "dmode": 1 + k % 2,
+        runs.append({"members": members, "late": (2, 0, 2, 2)[k % 4], "delay": delay, "dmode": 1 + k % 2,
                      "nz": (0, 0, 15, 40)[(k // 2) % 4], "src": "noise"})
     return runs
 
@@ -281,14 +287,16 @@ def compound_compositions(ctx, d, scenarios):
         cfgs += [{"sched": "ip", "cores": 3}, {"sched": "pbq", "cores": 4}, {"sched": "rnd", "cores": 2},
                  {"sched": "ltq", "cores": 3}, {"sched": "lhq", "cores": 4}, {"sched": "llp", "cores": 1}]
     multi = [i for i, c in enumerate(cfgs) if c["cores"] > 1]
-    # scenarios of the model: all of them (thorough) or a sample that keeps every scenario with a concurrent completion
+    # scenarios of the model: all of them, or a sample that prefers the scenarios with a concurrent completion
     scs = list(scenarios)
-    if ctx.quick and len(scs) > 160:
+    cap = (100, 60) if ctx.quick else (1000, 500)
+    if len(scs) > sum(cap):
         withwin = [s for s in scs if s["win"]]
         rest = [s for s in scs if not s["win"]]
         rng.shuffle(withwin)
         rng.shuffle(rest)
-        scs = withwin[:100] + rest[:60]
+        scs = withwin[:cap[0]] + rest[:cap[1]]
+    ctx.extra["model_scenarios_run"] = len(scs)
     runs, assign = [], []
     for k, sc in enumerate(scs):
         runs.append(scenario_run(rng, sc, k))
@@ -301,7 +309,7 @@ def compound_compositions(ctx, d, scenarios):
         runs.append(r)
         assign.append([multi[k % len(multi)], multi[(k + 2) % len(multi)]] if ctx.quick else multi)
     per_cfg = {ci: [i for i, a in enumerate(assign) if ci in a] for ci in range(len(cfgs))}
-    window = 3000
+    window = 4000
     with concurrent.futures.ThreadPoolExecutor(max_workers=4) as pool:
         results = list(pool.map(lambda ci: run_compound_config(ctx, exe, runs, per_cfg[ci], cfgs[ci], ci, window),
                                 range(len(cfgs))))
